@@ -34,9 +34,9 @@ SATS = {
     'p2tr-script': ['valid', 'wrong-key', 'wrong-amount', 'altered-output', 'control-parity', 'control-internal-key', 'control-node', 'control-leaf-version', 'control-truncated', 'wrong-script', 'annex',
                     'extra-witness-item', 'leftover-stack', 'false-result', 'op-success', 'unknown-leaf-version', 'empty-script', 'multi-input', 'many-checks', 'many-checks-annex', 'p2sh-shaped-leaf',
                     'initial-stack-999', 'initial-stack-1000', 'initial-stack-1001', 'initial-stack-998-annex', 'initial-stack-1000-annex', 'initial-stack-1001-annex'],
-    'p2wsh-timelock': ['csv-ok', 'csv-too-early', 'csv-equal', 'csv-highbits-ok', 'csv-highbits-too-early', 'csv-disabled-bit-in-tx', 'csv-disabled-bit-in-script', 'csv-type-mismatch', 'csv-version1',
+    'p2wsh-timelock': ['csv-ok', 'csv-too-early', 'csv-equal', 'csv-highbits-ok', 'csv-highbits-too-early', 'csv-disabled-bit-in-tx', 'csv-disabled-bit-in-script', 'csv-type-mismatch', 'csv-version1', 'csv-version-high-bit',
                        'cltv-ok', 'cltv-too-early', 'cltv-equal', 'cltv-type-mismatch', 'cltv-final-sequence', 'cltv-time-ok'],
-    'p2sh-timelock': ['csv-ok', 'csv-too-early', 'csv-highbits-too-early', 'csv-version1', 'cltv-ok', 'cltv-too-early', 'cltv-final-sequence', 'cltv-type-mismatch'],
+    'p2sh-timelock': ['csv-ok', 'csv-too-early', 'csv-highbits-too-early', 'csv-version1', 'csv-version-high-bit', 'cltv-ok', 'cltv-too-early', 'cltv-final-sequence', 'cltv-type-mismatch'],
     # witness items are bytes, whatever they look like as text; a witness script is run as it is, whatever it looks like
     # witness programs other than v0/20, v0/32 and native v1/32: future versions succeed unless discouraged, v0 of another length fails
     'witness-program': ['v2-32-bytes', 'v16-2-bytes', 'v1-33-bytes', 'v1-2-bytes', 'v0-25-bytes', 'v0-2-bytes', 'p2sh-wrapped-v1-32-bytes', 'p2sh-wrapped-v5-20-bytes', 'v2-40-bytes'],
@@ -227,9 +227,12 @@ def build(rng, otype, sat):
         n0 = tl['operand']
         if tl['is_csv']:
             tx.version = 2 if sat != 'csv-version1' else 1
+            if sat == 'csv-version-high-bit':
+                # the version is compared as an UNSIGNED number: 0x80000002 and 0xffffffff are >= 2 (relative lock times apply)
+                tx.version = rng.choice([-1, -0x80000000 + 2, -0x80000000, -2])
             base = n0 & 0xffff
             tflag = n0 & (1 << 22)
-            if sat in ('csv-ok', 'csv-version1', 'csv-disabled-bit-in-script', 'csv-type-mismatch'):
+            if sat in ('csv-ok', 'csv-version1', 'csv-version-high-bit', 'csv-disabled-bit-in-script', 'csv-type-mismatch'):
                 seq = (base + rng.choice([0, 1, 5])) & 0xffff | (tflag if sat != 'csv-type-mismatch' else 0)
             elif sat == 'csv-equal':
                 seq = base | tflag
